@@ -50,6 +50,7 @@ def parseEUFSteps (tt : Terms) : Nat → List String → List EUF.Step → Optio
     | "H" :: i :: r => i.toNat?.bind (fun i => parseEUFSteps tt n r (.hyp i :: acc))
     | "R" :: t :: r => (tm t).bind (fun t => parseEUFSteps tt n r (.refl t :: acc))
     | "Y" :: j :: r => j.toNat?.bind (fun j => parseEUFSteps tt n r (.symm j :: acc))
+    | "N" :: j :: r => j.toNat?.bind (fun j => parseEUFSteps tt n r (.bnot j :: acc))
     | "X" :: j :: k :: r => match j.toNat?, k.toNat? with
       | some j, some k => parseEUFSteps tt n r (.trans j k :: acc)
       | _, _ => none
